@@ -13,7 +13,10 @@ func (vector *Vector) Add(a, b Vector) {
 	if len(a) != len(b) || len(a) != len(*vector) {
 		panic("vector.Add: vectors don't have the same length")
 	}
-		n := uint64(len(a))
+	n := uint64(len(a))
+	if n == 0 {
+		return
+	}
 	addVec(&(*vector)[0], &a[0], &b[0], n)
 }
 
@@ -25,6 +28,9 @@ func addVec(res, a, b *{{.ElementName}}, n uint64)
 func (vector *Vector) Sub(a, b Vector) {
 	if len(a) != len(b) || len(a) != len(*vector) {
 		panic("vector.Sub: vectors don't have the same length")
+	}
+	if len(a) == 0 {
+		return
 	}
 	subVec(&(*vector)[0], &a[0], &b[0], uint64(len(a)))
 }
@@ -89,11 +95,11 @@ func sumVec(res *{{.ElementName}}, a *{{.ElementName}}, n uint64)
 // It panics if the vectors don't have the same length.
 func (vector *Vector) InnerProduct(other Vector) (res {{.ElementName}}) {
 	n := uint64(len(*vector))
-	if n == 0 {
-		return
-	}
 	if n != uint64(len(other)) {
 		panic("vector.InnerProduct: vectors don't have the same length")
+	}
+	if n == 0 {
+		return
 	}
 	const maxN = (1 << 32) - 1
 	if !cpu.SupportAVX512 || n >= maxN {
@@ -419,11 +425,11 @@ func (vector *Vector) InnerProduct(other Vector) (res {{.ElementName}}) {
 	}
 
 	n := uint64(len(*vector))
-	if n == 0 {
-		return
-	}
 	if n != uint64(len(other)) {
 		panic("vector.InnerProduct: vectors don't have the same length")
+	}
+	if n == 0 {
+		return
 	}
 
 	const blockSize = 16
